@@ -126,6 +126,25 @@ CLAIMED = {
                 note=TB + "; depth contract of parse_loop_packets assumed (loop-carried pairing keyed on column_index), handlers "
                      "cannot modify the scanner",
                 tech="context-sensitive interval abstract interpretation over clang CFGs (assume-guarantee contracts per production)"),
+    "C16": dict(level="other", ref="5 C16",
+                text="Four rule groups over all units: ownership typestate (per-function dataflow with aliases, allocator/release/transfer "
+                     "summary tables: every object a function acquires is released or handed over exactly once on every path; no double "
+                     "release or use after release); bounds idioms (index bound larger than the array, free() of pointer arithmetic); "
+                     "process-wide state (path-sensitive setlocale save/restore, no fenv/env/signal calls); unbounded signed decimal "
+                     "accumulation and kind-before-fields. Absence of undefined behaviour in general (value ranges of all arithmetic, "
+                     "array *elements*, SQLite/ICU internals) is not decided.",
+                note=TB + "; frozen allocator table (own.ALLOC_OUT, 44 entries), 4 named exemptions (DESERIALIZE macro family, parse_table's "
+                     "dead allocating arm); linked-list / hash / array elements are outside the alias model; 3 genuine defects are "
+                     "recorded as known findings",
+                tech="ownership typestate dataflow + idiom lints over the AST + path-sensitive typestate for setlocale"),
+    "C17": dict(level="other", ref="5 C17",
+                text="Structural necessary conditions of graceful failure under memory exhaustion over ~100 allocation sites: every "
+                     "allocation result is NULL-tested on every path before it is dereferenced or copied into (must-fact dataflow per "
+                     "site); a positive callee result that may be CIF_MEMORY_ERROR is never followed by `return CIF_OK` unrecorded; "
+                     "ownership typestate restricted to paths through a failed allocation (clean-up ladders); no exit leaves a "
+                     "transaction open. SQLite's/ICU's own OOM behaviour and 'the same call succeeds when repeated' are not decided.",
+                note=TB + "; may-return-code summaries decide which callees can report memory failure",
+                tech="must-fact dataflow per allocation site + dropped-failure typestate + ownership typestate on OOM paths"),
     "C18": dict(level="other", ref="5 C18",
                 text="Exhaustive agreement of finite tables: the special-character sets of cif_analyze_string, cif_value_set_quoted and "
                      "cif_is_reserved_string equal the scanner's token-ending / token-starting classes; reserved words agree with "
